@@ -224,7 +224,24 @@ func verifTagOf(cmd string, args []interface{}) int {
 // verifCheckC01 : the data requests executed are a prefix of the source's data
 // items, each once, in order, unaltered, in the designated DB; everything else
 // the target saw is SELECT / MULTI / EXEC / PING / bookkeeping on the checkpoint key.
-func verifCheckC01(st *verifStream, run *verifSendRun) {
+func verifCheckC01(st *verifStream, run *verifSendRun, txnMode bool) {
+	// the source's MULTI/EXEC brackets are never forwarded themselves: without transactional sending
+	// the target sees none, with it only the sender's own, properly alternating ones
+	open := false
+	for _, r := range run.fake.log {
+		switch r.cmd {
+		case "multi":
+			verifAssert(txnMode, "C01.sender.forwards-source-transaction-bracket")
+			verifAssert(!open, "C01.sender.nested-multi")
+			open = true
+		case "exec":
+			verifAssert(txnMode && open, "C01.sender.forwards-source-transaction-bracket")
+			open = false
+		}
+	}
+	if run.err == nil {
+		verifAssert(!open, "C01.sender.leaves-target-inside-multi")
+	}
 	next := 0
 	var data []verifItem
 	for _, it := range st.items {
@@ -257,7 +274,7 @@ func verifCheckC01(st *verifStream, run *verifSendRun) {
 	}
 	// consumed but not executed items may only be a queued tail (a stop is a crash for C02)
 	verifCover(next == len(data) && len(data) > 0, "c01.all-data-executed")
-	verifObserve("executed", int64(next))
+	// (how much of the queued tail is flushed before the stop is a race: not observed for the differential)
 }
 
 // verifCheckC07 : every stored resume position is the start offset or the end
@@ -460,7 +477,7 @@ func verifSender(txnMode bool) {
 	parts := verifParam("PARTS", 15) // 1 = C01, 2 = C07, 4 = C09, 8 = C02
 	if parts&1 != 0 {
 		verifAssert(run.err == nil, "C01.sender.error-on-healthy-target")
-		verifCheckC01(st, run)
+		verifCheckC01(st, run, txnMode)
 	}
 	if parts&2 != 0 {
 		verifCheckC07(st, run, 0, false)
